@@ -19,3 +19,17 @@ def opCons (args : List String) : String :=
     match consolidate sorted with
     | none => "err"
     | some (loop, ref) => s!"ok loop={loop} ref={ref}"
+
+/-! op `loadtab <asset> <rep> <s:e,s:e,…>`: the segment table `loadRep` builds for a `$Number$` representation from what
+the harness read in the segment files (decode time and end of the last fragment of each file, in number order) -/
+def opLoadtab (args : List String) : String :=
+  match args with
+  | [_, _, raw] =>
+    match (raw.splitOn ",").mapM (fun p => match p.splitOn ":" with
+        | [s, e] => match s.toNat?, e.toNat? with
+          | some s, some e => some (s, e)
+          | _, _ => none
+        | _ => none) with
+    | some files => ",".intercalate ((Load.loadByNumber files).map fun x => s!"{x.1}:{x.2}")
+    | none => "bad-op"
+  | _ => "bad-op"
